@@ -21,7 +21,7 @@ ASSUMPTIONS = ['batch vs stream: max-abs difference <= 1e-12 (a batch constructo
                'the streaming instance is created without data but with the same effective configuration and started from the first row of the batch run',
                'Madgwick\'s default gain depends on whether magnetometer data was given to the constructor (documented default); both runs get the same explicit gain',
                'bounded: histories of length 5 over 3 sample symbols, 2 live instances x 3 updates + 1 construction event']
-REQUIRED_CLASSES = ['refused-calls', 'record-dtypes', 'dt-per-call', 'stream:carriers', 'batch=stream', 'repeat', 'schedule', 'shared-weights', 'param-pair']
+REQUIRED_CLASSES = ['given-q0', 'refused-calls', 'record-dtypes', 'dt-per-call', 'stream:carriers', 'batch=stream', 'repeat', 'schedule', 'shared-weights', 'param-pair']
 
 S = [  # (gyr, acc, mag) sample symbols
     (np.array([0.01, -0.02, 0.03]), np.array([0.1, 0.2, 9.7]), np.array([22.0, 1.0, 40.0])),
@@ -62,13 +62,16 @@ def job_batch_stream(ctx, key):
     words += [(0,) + w for L in (1, 2, 3) for w in itertools.product(range(3), repeat=L)]
     hists = [('word=' + ''.join(map(str, w)), history(w)) for w in words] + [(f'long#{k}', long_history(k)) for k in (0, 1)]
     # histories containing dropout samples (all-zero magnetometer / accelerometer rows): where the batch run accepts the record, streaming must agree
-    for dn, rows_m, rows_a in (('mag-dropout', (7, 20, 21), ()), ('acc-dropout', (), (9, 30)), ('both', (12,), (12, 25))):
+    for dn, rows_m, rows_a, rows_g in (('mag-dropout', (7, 20, 21), (), ()), ('acc-dropout', (), (9, 30), ()), ('both', (12,), (12, 25), ()),
+                                       ('gyr-zero dropout', (), (), (6, 20, 21, 30, 39)), ('gyr-zero and acc dropout', (), (9,), (9, 10))):
         g_, a_, m_ = long_history(0)
-        a_ = a_.copy(); m_ = m_.copy()
+        g_ = g_.copy(); a_ = a_.copy(); m_ = m_.copy()
         for t in rows_m:
             m_[t] = 0.0
         for t in rows_a:
             a_[t] = 0.0
+        for t in rows_g:
+            g_[t] = 0.0                 # the gyroscope reads exactly zero (a pause): the attitude is held / only corrected
         hists.append((f'long#0+{dn}', (g_, a_, m_)))
     for ci, cfg in enumerate(r.cfgs):
         for hn, (g, a, m) in hists:
@@ -141,6 +144,21 @@ def job_batch_stream(ctx, key):
                         continue
                     ctx.close(np.array(rows3), b1, 1e-12, f'{key}: batch = stream (a-priori handed back {carrier})', kk)
                     ctx.cls('stream:carriers')
+            if hn in ('long#1', 'word=02121') and r.q0_key == 'q0':
+                # the initial attitude GIVEN (q0=): the batch run starts exactly there, and equals the stream started there
+                q0g = rq.qunit(np.array([0.5, 0.5, -0.5, 0.5]) + 0.1 * np.array([0.3, -0.2, 0.1, 0.4]))
+                try:
+                    _seed(r)
+                    bq0 = np.asarray(r.output(r.batch(g, a, m, cfg, q0=q0g.copy())), float)
+                    ctx.close(bq0[0], q0g, 1e-15, f'{key}: a batch run given q0 starts at q0 (row 0)', kk)
+                    instq = r.fresh(cfg); q = q0g.copy(); rowsq = [q.copy()]
+                    for t in range(1, len(g)):
+                        q = r.step(instq, q, g[t], a[t], m[t] if r.has_mag else None)
+                        rowsq.append(np.array(q, float))
+                    ctx.close(np.array(rowsq), bq0, 1e-12, f'{key}: batch(q0) = stream started from q0', kk)
+                    ctx.cls('given-q0')
+                except Exception as ex:
+                    ctx.fail(f'{key}: run with a given q0 raises', kk, f'{type(ex).__name__}: {ex}'[:200], 'N attitudes')
             if hn in ('long#0', 'word=01210'):
                 # (a) two runs started from ONE caller-owned Quaternion object: the object is left as it was, the second run equals the first
                 try:
